@@ -118,6 +118,17 @@ reg("C16", "exploration",
     "exhaustive bounded enumeration + property-based testing (Hypothesis) against a reference model",
     "DESIGN.md section 4 C16")
 
+reg("C15", "exploration",
+    "Hypothesis-generated assignment objects over the documented field domains are written and read back with the "
+    "full reader and the abridged reader (byte alignment, field-wise equality, agreement with the in-memory "
+    "abridged object, pickled state); a rule-based state machine builds streams of gene-info/assignment records "
+    "through the real TmpFileAssignmentPrinter and both loaders; pipeline runs saved with --keep_tmp are re-run "
+    "from --read_assignments and all outputs compared.",
+    "Readers are driven through a strict byte stream that refuses short reads (a misaligned reader stops instead of "
+    "looping); two repaired defects listed as fixed.",
+    "property-based testing (Hypothesis) incl. stateful rule-based machine; round-trip + differential oracles",
+    "DESIGN.md section 4 C15")
+
 NOT_YET = "check not built yet in this session (see DESIGN.md section 6a build order)"
 
 
